@@ -149,6 +149,53 @@ def run_derived(ctx, drv, cfg, sep, curs, units_by_key):
                        'ops': mon.gh.config_ops(cfg) + [{'op': 'execute', 'lang': 'en', 'text': text}]})
 
 
+def run_user_units(ctx, drv, cfg, sep):
+    """Unit quantities of a user-defined family whose items set none, some or all of their own print options (decimal digits,
+    zero-fraction removal, fraction rounding): an option that is not given falls back to 2 / on / on, each on its own."""
+    rng, res = ctx.rng, ctx.res
+    combos = [(None, None, None), (4, None, None), (None, False, None), (None, None, False), (0, True, None), (3, False, True), (1, None, True), (5, True, False)]
+    words = ['ua', 'ub', 'uc', 'ud', 'ue', 'uf', 'ug', 'uh']
+    ops = [{'op': 'new_calc', 'c': 9, 'seg': True}] + mon.gh.config_ops(cfg, 9, seg=False) + [{'op': 'add_type', 'c': 9, 'name': 'ufam'}]
+    for i, (w, (dg, rm, rd)) in enumerate(zip(words, combos)):
+        op = {'op': 'add_type_item', 'c': 9, 'name': 'ufam', 'index': i + 1, 'format': '{value} %s' % w, 'parse': ['{NUMBER:value} {TEXT:type:%s}' % w],
+              'up': '{value}', 'down': '{value}', 'names': [w]}
+        if dg is not None:
+            op['digits'] = dg
+        if rm is not None:
+            op['rm'] = rm
+        if rd is not None:
+            op['round'] = rd
+        ops.append(op)
+    cases = []
+    for _ in range(40):
+        k = rng.randrange(len(words))
+        dg, rm, rd = combos[k]
+        fam, x = gen_value(rng, dg if dg is not None else 2)
+        x = abs(x)
+        cases.append((k, fam, x, '[NUMBER:%s] %s' % (canon_of_float(x), words[k])))
+    n0 = len(ops)
+    ops += [{'op': 'execute', 'c': 9, 'lang': 'en', 'text': t} for _, _, _, t in cases]
+    rs = drv.run(ops)[n0:]
+    for (k, fam, x, text), r in zip(cases, rs):
+        slot = mon.slot0(r)
+        dg, rm, rd = combos[k]
+        res.cases += 1
+        res.count('kind:user-unit')
+        res.distinct.add('uunit', sep, k, x)
+        if mon.kind(slot) != 'unit' or mon.fval(slot) != x:
+            res.count('user_unit_lines_not_read_as_written')
+            continue
+        out = slot['out']
+        post = ' ' + words[k]
+        why = 'unit format not respected' if not out.endswith(post) else check_print(x, out[:-len(post)], sep, dg if dg is not None else 2, rm if rm is not None else True, rd if rd is not None else True)
+        if why is None:
+            res.count('ok')
+            continue
+        res.violation('print:user-unit:%s' % ('all-options' if None not in (dg, rm, rd) else 'no-options' if (dg, rm, rd) == (None, None, None) else 'some-options'),
+                      '%s on a user unit registered with decimal_digits=%s remove_fract_if_zero=%s use_fract_rounding=%s under separators %r: prints %r: %s' % (text, dg, rm, rd, sep, out, why),
+                      {'lang': 'en', 'text': text, 'ops': ops[:n0] + [{'op': 'execute', 'c': 9, 'lang': 'en', 'text': text}]})
+
+
 def run_shard(ctx):
     rng = ctx.rng
     res = ctx.res
@@ -173,6 +220,7 @@ def run_shard(ctx):
                            mrm=rng.random() < 0.5, mround=rng.random() < 0.8)
         if not exotic and d < 10 and pd < 10:
             run_derived(ctx, drv, cfg, sep, curs, units_by_key)
+            run_user_units(ctx, drv, cfg, sep)
         items = []
         meta = []
         for _ in range(150):
